@@ -95,7 +95,15 @@ func (l *L2) Start() {
 	ctx, cancel := context.WithCancel(context.Background())
 	l.cancel = cancel
 	a := auditd.Auditd{Audits: l.audits, Logins: l.logins, EventW: auditevent.NewAuditEventWriter(l.W.Enc), Health: health.NewHealth()}
-	go func() { l.done <- a.Read(ctx) }()
+	go func() {
+		// a panic inside Read (its own goroutine) is an observation about the code under test
+		defer func() {
+			if r := recover(); r != nil {
+				l.done <- fmt.Errorf("panic: %v", r)
+			}
+		}()
+		l.done <- a.Read(ctx)
+	}()
 }
 
 // Preload puts a line into the (buffered) Audits channel without waiting for Read.
@@ -130,6 +138,9 @@ func (l *L2) WaitReturn(d time.Duration) bool {
 // LoginEntered is signalled when Read has entered sessionTracker.RemoteLogin
 // (before it takes the tracker's mutex).
 func (l *L2) LoginEntered() <-chan struct{} { return l.loginIn }
+
+// LoginDone signals the end of sessionTracker.RemoteLogin (the hook at the end of the method).
+func (l *L2) LoginDone() <-chan struct{} { return l.loginOK }
 
 // SendLoginAsync hands a valid login to Read without waiting for RemoteLogin to finish.
 func (l *L2) SendLoginAsync(id, pid int) bool {
